@@ -709,7 +709,7 @@ def main():
             print("DIVERGENCE property=%s the Ready loop saved the hard state of a snapshot-carrying Ready before the snapshot (event trace of the follower); instantiating Recover.tla with the observed order" % PROP, flush=True)
             recoverlib.run(tier, V, PROP, coverage, as_observed="save_first")
     coverage["ready_loop_snapshot_install"] = sic
-    coverage["evaluations"] = int(coverage["evaluations"]) + coverage["recover_model"]["replayed"] + coverage["recover_model_snapshots"]["replayed"]
+    coverage["evaluations"] = int(coverage["evaluations"]) + coverage["recover_model"]["replayed"] + coverage["recover_model_snapshots"]["replayed"] + coverage["recover_model_snapshots_cut_everywhere"]["replayed"]
     V.finish(tier, "fault_enumeration", coverage, assumptions)
 
 
